@@ -82,6 +82,7 @@ impl Prop for C17Prop {
             shapes: Some(vec![Shape::Path, Shape::Cycle, Shape::Cycle, Shape::Union, Shape::Union, Shape::Bipartite, Shape::Grid, Shape::Cliques, Shape::Star, Shape::Gnp]),
             lifecycle_pct: 15,
             keyings: 1,
+            boundary_per_mille: 0,
         }
         .gen("C17", seed, idx);
         let mut rng = Rng::new(seed, "c17.args");
